@@ -1,23 +1,23 @@
 SPECIFICATION Spec
 CONSTANTS
-  MaxBlocks = 2
-  MaxReqs = 2
+  MaxBlocks = 4
+  MaxReqs = 3
   Templates = {"o23", "ret", "d3"}
-  PatchKinds = {"plain2", "align"}
-  FnLayouts = {"none", "one"}
+  PatchKinds = {"plain2"}
+  FnLayouts = {"none", "one", "split", "tail"}
   EndSyms = {FALSE}
   NoSyms = {FALSE}
   AnnModes = {"none"}
-  WithProxyDel = FALSE
+  WithProxyDel = TRUE
   CfiLayouts = {"none"}
   Isa = "x64"
   WithScopes = FALSE
-  WholeOnly = FALSE
+  WholeOnly = TRUE
   Leads = {0}
   DropFnTables = {FALSE}
   ExtraData = {FALSE}
   Retargets = {FALSE}
-  AlignOpts = {0, 4, 16}
+  AlignOpts = {0}
   InsFns = {"none"}
   Emit = TRUE
 INVARIANT Inv
